@@ -2059,15 +2059,117 @@ def oracle_C19(case, **opts):
 # C15  renaming equivariance
 # ------------------------------------------------------------------------------------------------
 
-RESERVED_COLUMNS = ["_data_algebra_temp_g", "data_algebra_extend_temp_col_0", "_data_algebra_orig_index",
-                    "data_algebra_project_temp_col_0", "_data_table_temp_col", "data_algebra_temp_merge_col",
-                    "_da_temp_zero_column", "_da_temp_one_column", "_da_extend_temp_partition_column",
-                    "_da_extend_temp_v_column_0", "_da_project_temp_group_by_column", "_da_project_temp_v_column_0",
-                    "_da_count_tmp"]
+# The reserved set, three views of it (kept consistent with `namespace Reserved` of lean/DAVerif/Spec/Rename.lean):
+#   (a) the Lean guard NoReserved:  RESERVED_EXACT_COLUMNS / RESERVED_COLUMN_PREFIXES (+digits) / RESERVED_SUFFIXES for
+#       columns, RESERVED_TABLE_PREFIXES (+digits) for tables  ->  is_reserved_col / is_reserved_table
+#   (b) concrete names the oracle DRAWS its "reserved" target names from: RESERVED_COLUMNS, RESERVED_TABLES (these also
+#       hold internal names that were probed harmless - `a`, `b`, `table_values`, `join_source_*_0`,
+#       `_da_temp_zero_column` - a failure under such a name is NOT excused)
+#   (c) the ATTRIBUTION table C15_SCRATCH: which executor uses which scratch name in which step (every row confirmed
+#       harmful on the real code, notes/C15_design.md); only a hit in this table makes a failure a known finding
+RESERVED_EXACT_COLUMNS = ["_data_algebra_temp_g", "_data_algebra_orig_index", "_data_table_temp_col",
+                          "data_algebra_temp_merge_col", "_da_temp_zero_column", "_da_temp_one_column",
+                          "_da_extend_temp_partition_column", "_da_project_temp_group_by_column", "_da_count_tmp"]
+RESERVED_COLUMN_PREFIXES = ["data_algebra_extend_temp_col_", "data_algebra_project_temp_col_",
+                            "_da_extend_temp_v_column_", "_da_project_temp_v_column_"]
 RESERVED_SUFFIXES = ["_tmp_right_col", "_da_join_tmp_key", "_da_right_tmp", "_da_left_tmp"]
-RESERVED_TABLES = ["extend_0", "extend_1", "project_0", "project_1", "select_rows_0", "order_rows_0", "map_columns_0",
-                   "rename_0", "natural_join_0", "join_source_left_0", "join_source_right_0", "concat_rows_0",
-                   "table_reference_0", "convert_records_blocks_out_0", "a", "b", "table_values"]
+RESERVED_TABLE_PREFIXES = ["table_reference_", "extend_", "project_", "select_rows_", "order_rows_", "map_columns_",
+                           "rename_", "natural_join_", "join_source_left_", "join_source_right_", "concat_rows_",
+                           "convert_records_blocks_in_", "convert_records_blocks_out_"]
+RESERVED_COLUMNS = RESERVED_EXACT_COLUMNS + [p + "0" for p in RESERVED_COLUMN_PREFIXES] + \
+    ["data_algebra_extend_temp_col_1", "_da_extend_temp_v_column_1", "_da_project_temp_v_column_1",
+     "_da_project_temp_v_column_2"]
+RESERVED_TABLES = ["extend_0", "extend_1", "extend_2", "project_0", "project_1", "select_rows_0", "select_rows_1",
+                   "order_rows_0", "order_rows_1", "map_columns_0", "map_columns_1", "rename_0", "rename_1",
+                   "natural_join_0", "natural_join_1", "join_source_left_0", "join_source_right_0", "concat_rows_0",
+                   "concat_rows_1", "table_reference_0", "table_reference_1", "table_reference_2",
+                   "convert_records_blocks_in_0", "convert_records_blocks_out_0", "a", "b", "table_values"]
+
+
+def _is_numbered(prefix, s):
+    """s = prefix ++ digits with at least one digit (Reserved.isNumbered)"""
+    rest = s[len(prefix):]
+    return s.startswith(prefix) and rest != "" and all(ch in "0123456789" for ch in rest)
+
+
+def is_reserved_col(c):
+    """Reserved.isReservedCol of lean/DAVerif/Spec/Rename.lean"""
+    return (c in RESERVED_EXACT_COLUMNS or any(_is_numbered(p, c) for p in RESERVED_COLUMN_PREFIXES)
+            or any(c.endswith(sfx) for sfx in RESERVED_SUFFIXES))
+
+
+def is_reserved_table(t):
+    """Reserved.isReservedTable of lean/DAVerif/Spec/Rename.lean"""
+    return any(_is_numbered(p, t) for p in RESERVED_TABLE_PREFIXES)
+
+
+# (executor, how the name is matched, pattern, real node kinds one of which must occur in the pipeline)
+#   node kinds: the real node_name, plus "WindowedExtend" (extend with windowed ops / partition_by / order_by) and
+#   "KeylessJoin" (natural_join with an empty `on`)
+C15_SCRATCH = [
+    ("pandas", "exact", "_data_table_temp_col", {"ProjectNode"}),
+    ("pandas", "exact", "_data_algebra_temp_g", {"WindowedExtend"}),
+    ("pandas", "exact", "_data_algebra_orig_index", {"WindowedExtend"}),
+    ("pandas", "prefix", "data_algebra_extend_temp_col_", {"WindowedExtend"}),
+    ("pandas", "prefix", "data_algebra_project_temp_col_", {"ProjectNode"}),
+    ("pandas", "exact", "data_algebra_temp_merge_col", {"KeylessJoin"}),
+    ("pandas", "suffix", "_tmp_right_col", {"NaturalJoinNode"}),
+    ("polars", "exact", "_da_temp_one_column", {"ExtendNode", "ProjectNode", "SelectRowsNode"}),
+    ("polars", "exact", "_da_extend_temp_partition_column", {"ExtendNode"}),
+    ("polars", "prefix", "_da_extend_temp_v_column_", {"ExtendNode"}),
+    ("polars", "exact", "_da_project_temp_group_by_column", {"ProjectNode"}),
+    ("polars", "prefix", "_da_project_temp_v_column_", {"ProjectNode"}),
+    ("polars", "exact", "_da_count_tmp", {"ConvertRecordsNode"}),
+    ("polars", "suffix", "_da_join_tmp_key", {"NaturalJoinNode"}),
+    ("polars", "suffix", "_da_right_tmp", {"NaturalJoinNode"}),
+    ("polars", "suffix", "_da_left_tmp", {"NaturalJoinNode"}),
+]
+# generated names that become names of common table expressions in the WITH form (the join_source_* names are aliases
+# only: probed harmless as table names, so not here)
+C15_CTE_PREFIXES = [p for p in RESERVED_TABLE_PREFIXES if not p.startswith("join_source_")]
+
+
+def _c15_node_kinds(ctx):
+    kinds = set()
+    for n in ctx.nodes():
+        kinds.add(n.node_name)
+        if n.node_name == "ExtendNode" and (n.windowed_situation or len(n.partition_by) > 0 or len(n.order_by) > 0):
+            kinds.add("WindowedExtend")
+        if n.node_name == "NaturalJoinNode" and len(n.on_a) == 0:
+            kinds.add("KeylessJoin")
+    return kinds
+
+
+def c15_scratch_columns(backend, names, kinds):
+    """the names among `names` that executor `backend` uses as a scratch column in a step the pipeline contains"""
+    out = []
+    for c in names:
+        for be, how, pat, need in C15_SCRATCH:
+            if be != backend or not (need & kinds):
+                continue
+            if ((how == "exact" and c == pat) or (how == "prefix" and _is_numbered(pat, c))
+                    or (how == "suffix" and c.endswith(pat) and len(c) > len(pat))):
+                out.append(c)
+                break
+    return sorted(out)
+
+
+def c15_captured_tables(backend, names, ops):
+    """the table names among `names` that are also the name of a common table expression in the SQL text the backend's
+    dialect generates for `ops` (WITH form)"""
+    cand = [t for t in names if any(_is_numbered(p, t) for p in C15_CTE_PREFIXES)]
+    if not cand or backend not in ("sqlite", "pg"):
+        return []
+    try:
+        with warnings.catch_warnings():
+            warnings.simplefilter("ignore")
+            model = L.SQLite.SQLiteModel() if backend == "sqlite" else L.PostgreSQL.PostgreSQLModel()
+            sql = model.to_sql(ops, sql_format_options=P._fmt_options(None))
+    except Exception:
+        return []
+    return sorted(t for t in cand if re.search(r'"%s"\s+AS\s+\(' % re.escape(t), sql))
+
+
 _KEYWORDS = {"and", "or", "not", "True", "False", "None", "in", "is", "if", "else", "lambda"}
 
 
@@ -2203,9 +2305,24 @@ def rename_case(case, cm, tm):
     return {"tables": tables, "pipe": pipe(case["pipe"]), "meta": case.get("meta")}
 
 
+def _c15_key_sequence(case, table):
+    """after a final order_rows: the sequence of the order-key values (what order_rows promises); else None"""
+    main = P.main_steps(case["pipe"])
+    if not main or main[-1]["call"] != "order_rows":
+        return None
+    idx = [table["cols"].index(k) for k in main[-1]["cols"] if k in table["cols"]]
+    return [[r[i] for i in idx] for r in table["rows"]]
+
+
 def oracle_C15(case, **opts):
     """metamorphic: random injective renamings of tables and columns, half of them drawing target names from the names
-    the system invents; the result must be the renamed result on every backend"""
+    the system invents; the result must be the renamed result on every backend (same columns, same row multiset, after
+    a final order_rows the same sequence of order-key values; an error iff the original errors).
+    Renamings are injective up to ASCII case (SQL identifiers are case-insensitive: `a` and `A` are one column for
+    SQLite itself, before data_algebra is involved).
+    Attribution (DESIGN 5.2): a failure on Pandas / Polars is D23 only when a renamed column carries a scratch name THAT
+    executor uses in a step kind the pipeline contains (C15_SCRATCH); a failure on an SQL backend is D24 only when a
+    renamed table carries the name of a common table expression of the generated SQL; everything else is unattributed."""
     ctx = opts.get("ctx") or Ctx(case)
     if ctx.ops is None:
         return []
@@ -2213,64 +2330,83 @@ def oracle_C15(case, **opts):
     rng = random.Random(opts.get("seed", 0))
     cols = _all_columns(case)
     tabs = sorted(case["tables"])
+    fc, ft = opts.get("force_columns") or {}, opts.get("force_tables") or {}
     for trial in range(opts.get("renamings", 3)):
         reserved = trial % 2 == 1 or opts.get("reserved_only", False)
         cm, tm = {}, {}
-        used = set()
+        used = {v.lower() for v in fc.values()} | {c.lower() for c in cols}
         rc = list(RESERVED_COLUMNS) + [c + s for c in cols[:3] for s in RESERVED_SUFFIXES]
         rng.shuffle(rc)
         for c in cols:
             if reserved and rc and rng.random() < 0.5:
                 new = rc.pop()
             else:
-                new = "c_%s_%d" % (re.sub(r"\W", "", c), rng.randint(0, 99))
-            while new in used or new in cols:
+                # fresh names in three styles, so that a dependence on letter case / on the shape of a name shows
+                base, n = re.sub(r"\W", "", c), rng.randint(0, 99)
+                new = rng.choice(["c_%s_%d" % (base, n), "c_%s_%d" % (base.lower(), n), "C%d_%s" % (n, base.upper())])
+            while new.lower() in used:
                 new += "z"
-            used.add(new)
+            used.add(new.lower())
             cm[c] = new
         rt = list(RESERVED_TABLES)
         rng.shuffle(rt)
+        usedt = {v.lower() for v in ft.values()} | {t.lower() for t in tabs}
         for t in tabs:
             if reserved and rt and rng.random() < 0.6:
                 new = rt.pop()
             else:
-                new = "tab_%s_%d" % (t, rng.randint(0, 99))
-            while new in tm.values() or new in tabs:
+                new = rng.choice(["tab_%s_%d", "tab_%s_%d", "T%s_%d"]) % (t, rng.randint(0, 99))
+            while new.lower() in usedt:
                 new += "z"
+            usedt.add(new.lower())
             tm[t] = new
-        cm.update(opts.get("force_columns") or {})
-        tm.update(opts.get("force_tables") or {})
+        cm.update(fc)
+        tm.update(ft)
         rcase = rename_case(case, cm, tm)
         rctx = Ctx(rcase)
         if rctx.ops is None:
-            fails.append(fail("C15:renamed-build-raised", f"{rctx.err} under {cm} {tm}"))
+            fails.append(fail("C15 renamed-build-raised", f"{rctx.err} under {cm} {tm}"))
             continue
         inv = {v: k for k, v in cm.items()}
-        scratch_cols = sorted(v for v in cm.values() if v in RESERVED_COLUMNS or any(v.endswith(s) for s in RESERVED_SUFFIXES))
-        scratch_tabs = sorted(v for v in tm.values() if v in RESERVED_TABLES)
+        kinds = _c15_node_kinds(rctx)
         for be in opts.get("backends", BACKENDS):
             a, b = ctx.run(be), rctx.run(be)
             if "skip" in a or "skip" in b:
                 continue
-            finding = None
-            if scratch_cols and be in ("pandas", "polars"):
-                finding = LIVE_FINDINGS["D23"]
-            if scratch_tabs and be in ("sqlite", "pg"):
-                finding = LIVE_FINDINGS["D24"]
-            if scratch_cols and be in ("sqlite", "pg") and finding is None:
-                finding = None
-            if ("err" in a) != ("err" in b):
-                if be == "polars" and "err" in b and not scratch_cols:
-                    continue
-                fails.append(fail(f"C15:{be}-raise-differs", f"original {a.get('err', 'ok')}, renamed {b.get('err', 'ok')}; "
-                                  f"reserved columns {scratch_cols} tables {scratch_tabs}", finding))
+            same_err = ("err" in a) == ("err" in b)
+            d = None
+            if same_err and "ok" in a:
+                tb = dict(b["ok"], cols=[inv.get(c, c) for c in b["ok"]["cols"]])
+                d = P.same_table(a["ok"], tb)
+                if d is None:
+                    ka, kb = _c15_key_sequence(case, a["ok"]), _c15_key_sequence(case, tb)
+                    if ka is not None and kb is not None and not (
+                            len(ka) == len(kb) and all(P._rows_close(x, y, 1e-8, [False] * len(x)) for x, y in zip(ka, kb))):
+                        d = f"order-key sequence after the final order_rows differs: {ka[:4]} vs {kb[:4]}"
+            if same_err and d is None:
                 continue
-            if "ok" not in a:
-                continue
-            tb = dict(b["ok"], cols=[inv.get(c, c) for c in b["ok"]["cols"]])
-            d = P.same_table(a["ok"], tb)
-            if d is not None:
-                fails.append(fail(f"C15:{be}-not-equivariant", f"{d}; reserved columns {scratch_cols} tables {scratch_tabs}", finding))
+            # a failure: which guard, if any, does the renamed case violate FOR THIS BACKEND
+            finding, hit = None, []
+            if be in ("pandas", "polars"):
+                hit = c15_scratch_columns(be, sorted(cm.values()), kinds)
+                if hit:
+                    finding = LIVE_FINDINGS["D23"]
+            else:
+                hit = c15_captured_tables(be, sorted(P._used_tables(rcase["pipe"], set())), rctx.ops)
+                if hit:
+                    finding = LIVE_FINDINGS["D24"]
+            ren = {k: v for k, v in cm.items() if is_reserved_col(v)}
+            rent = {k: v for k, v in tm.items() if is_reserved_table(v)}
+            ctxt = (f"scratch names of this backend hit: {hit}; renaming: reserved columns {ren} reserved tables {rent} "
+                    f"(all: {cm} {tm})")
+            # the kind has no colon: core's shrinker keeps candidates whose text up to the first colon is unchanged, so a
+            # shrink can neither change backend / failure type nor drift from an unattributed failure to a known one
+            tag = f" [known {finding}]" if finding else ""
+            if not same_err:
+                fails.append(fail(f"C15 {be} raise-differs{tag}", f"original {a.get('err', 'ok')}, renamed {b.get('err', 'ok')}; "
+                                  + ctxt, finding))
+            else:
+                fails.append(fail(f"C15 {be} not-equivariant{tag}", f"{d}; " + ctxt, finding))
         if fails and not opts.get("all", False):
             break
     return fails
